@@ -107,7 +107,7 @@ PROPS['C17'] = dict(
 )
 
 PROPS['C10'] = dict(
-    theorem='C10_printer_is_layout, C10_sprint, C10_swrite, C10_shown_true, C10_label_is_position (Properties/C10.v)',
+    theorem='C10_printer_is_layout, C10_sprint, C10_swrite, C10_shown_true, C10_label_is_position, C10_layout_is_cells, C10_shown_is_displayed, C10_not_shown_is_missing, C10_nothing_beyond, C10_rows_have_a_shown_digit, C10_before_cell (Properties/C10.v)',
     functional=True,
     level_text='Theorem for all option values (rows/columns incl. <= 0, any missing rune, count margin, leading decimal, trailing LF), all views, digit strings '
                'and AddRange lists: the streaming printer (first-cell / row-break / column-gap branches, skipRowsFor, gap filling) emits exactly the declarative '
